@@ -7,5 +7,5 @@ Extraction Language OCaml.
 (* the shared OCaml conversions (conv.ml) expect the extracted number types *)
 Definition querybind_model_tag : Z * N := (10%Z, 10%N).
 
-Extraction "../ocaml/gen/querybind_model.ml" querybind_model_tag run run_cmds init init_bound captured result visible
+Extraction "../ocaml/gen/querybind_model.ml" querybind_model_tag run run_ev run_cmds init init_bound captured result visible
   proto_fixed proto_unlocked_plan sel.
